@@ -1030,6 +1030,9 @@ impl ParserState {
         self.last_force_bytes_len = usize::MAX;
         self.lexer_stack_top_eos = false;
         self.rows_valid_end = self.num_rows();
+        // the cache is keyed by (lexer state, row index); after a rollback the same key
+        // can denote a different row, so the cached mask must not survive
+        self.bias_cache = None;
 
         self.assert_definitive();
 
